@@ -90,6 +90,38 @@ where
     e.line("done");
 }
 
+/// One instance per watchable signal number: after the instance is gone a delivery makes no wake
+/// attempt and no descriptor is left (the id table is cleaned up over its whole range).
+fn every_number_child(sig: i32, e: &mut Emit) {
+    crate::histex::counters::install();
+    unsafe {
+        let mut sa: libc::sigaction = std::mem::zeroed();
+        sa.sa_sigaction = libc::SIG_IGN;
+        libc::sigaction(sig, &sa, std::ptr::null_mut());
+    }
+    let fds0 = open_fds();
+    let inst = match SignalsInfo::<SignalOnly>::new(&[sig]) {
+        Ok(i) => i,
+        Err(_) => {
+            e.line("refused");
+            e.line("done");
+            return;
+        }
+    };
+    let w0 = crate::histex::counters::wakes();
+    unsafe {
+        libc::raise(sig);
+    }
+    let during = crate::histex::counters::wakes() - w0;
+    drop(inst);
+    let w1 = crate::histex::counters::wakes();
+    unsafe {
+        libc::raise(sig);
+    }
+    e.line(&format!("during={} after={} fds_left={}", during, crate::histex::counters::wakes() - w1, open_fds() as i64 - fds0 as i64));
+    e.line("done");
+}
+
 fn child<E: Ex3>(hist: &[Step], e: &mut Emit) {
     counters::install();
     for (k, &s) in PROBE.iter().enumerate() {
@@ -489,6 +521,20 @@ pub fn run(tier: Tier) -> BResult {
             violations.push(BViolation { message: format!("C12: {} / {}: {}", exn[ex], case["history"].as_str().unwrap_or(""), m), case });
         }
     }
+    // every signal number an instance can watch
+    let nums: Vec<i32> = (1..=64).filter(|s| !forbidden(*s) && *s != 32 && *s != 33).collect();
+    let nums2 = nums.clone();
+    let nprobes = run_cells(nums.len(), 16, Duration::from_secs(20), move |i, e| every_number_child(nums2[i], e));
+    for (i, p) in nprobes.iter().enumerate() {
+        transitions += 3;
+        *classes.entry("one instance per signal number".into()).or_insert(0) += 1;
+        if p.has("refused") {
+            continue;
+        }
+        if p.fate != Fate::Exited(0) || p.find("during=") != Some("1 after=0 fds_left=0") {
+            violations.push(BViolation { message: format!("C12: an instance watching signal {}: observed {:?} (the process {}); expected one wake attempt while it lives, none after it is gone, no descriptor left", nums[i], p.lines, p.fate.describe()), case: json!({"history": "new([n]); deliver; drop; deliver", "signal": nums[i]}) });
+        }
+    }
     // schedules (engine A)
     let mut a_states = 0u64;
     let mut a_trans = 0u64;
@@ -529,7 +575,7 @@ pub fn run(tier: Tier) -> BResult {
         violations,
         exhaustive,
         caps: a_caps,
-        rule: format!("schedules: two threads add the same signal through clones of one handle while it is delivered (and the instance is dropped), every choice vector within the deviation bound on the real code; histories: every history new(list) + up to {} operations over {{add_signal(ok new / already watched / forbidden / negative / too large / OS-refused 100 / 0), clone handle, drop handle, drop instance}} from two successful constructors (one lists a signal twice), 12 failing constructor lists (rejected number first / middle / last), and add_signal(x), add_signal(x) again for every x in [-2,130]+MIN/MAX; x 3 exfiltrators; re-adding a watched signal with 1 / 3 / 7 uncollected deliveries of it (with and without refused additions in between) x 3 exfiltrators; a probe after every step; reference model = {{instance alive, handle count, watched set}}; distinct = distinct model states reached", depth),
+        rule: format!("schedules: two threads add the same signal through clones of one handle while it is delivered (and the instance is dropped), every choice vector within the deviation bound on the real code; histories: every history new(list) + up to {} operations over {{add_signal(ok new / already watched / forbidden / negative / too large / OS-refused 100 / 0), clone handle, drop handle, drop instance}} from two successful constructors (one lists a signal twice), 12 failing constructor lists (rejected number first / middle / last), and add_signal(x), add_signal(x) again for every x in [-2,130]+MIN/MAX; x 3 exfiltrators; one instance per watchable signal number 1..64 (deliver, drop, deliver); re-adding a watched signal with 1 / 3 / 7 uncollected deliveries of it (with and without refused additions in between) x 3 exfiltrators; a probe after every step; reference model = {{instance alive, handle count, watched set}}; distinct = distinct model states reached", depth),
         assumptions: vec!["wake attempts per delivery counted through the cfg(sighook_verif) scheduling point in pipe::wake".into(), "open descriptors counted through /proc/self/fd".into()],
     }
 }
